@@ -12,13 +12,16 @@ import (
 	"net/http/httptest"
 	"net/url"
 	"sort"
+	"strconv"
 	"strings"
 	"sync"
+	"sync/atomic"
 
 	"google.golang.org/genproto/googleapis/api/annotations"
 	"google.golang.org/genproto/googleapis/api/serviceconfig"
 	"google.golang.org/grpc"
 	"google.golang.org/grpc/codes"
+	"google.golang.org/grpc/metadata"
 	"google.golang.org/grpc/status"
 	"google.golang.org/protobuf/encoding/protojson"
 	"google.golang.org/protobuf/proto"
@@ -126,7 +129,7 @@ type Built struct {
 	Mux   *larking.Mux
 	FD    protoreflect.FileDescriptor
 	mu    sync.Mutex
-	calls []Call
+	calls map[string][]Call // by request id (header X-Vf-Req)
 	// RegErr is the first registration error (nil if all services were
 	// accepted); RegPanic is set when registration panicked.
 	RegErr   error
@@ -135,17 +138,28 @@ type Built struct {
 	Tag      string
 }
 
-func (b *Built) take() []Call {
+func (b *Built) take(id string) []Call {
 	b.mu.Lock()
 	defer b.mu.Unlock()
-	c := b.calls
-	b.calls = nil
+	c := b.calls[id]
+	delete(b.calls, id)
 	return c
 }
 
+var reqSeq int64
+
 func (b *Built) Unary(ctx context.Context, md protoreflect.MethodDescriptor, in proto.Message) (proto.Message, error) {
+	id := ""
+	if m, ok := metadata.FromIncomingContext(ctx); ok {
+		if v := m.Get("x-vf-req"); len(v) > 0 {
+			id = v[0]
+		}
+	}
 	b.mu.Lock()
-	b.calls = append(b.calls, Call{Method: vschema.FullMethod(md), Msg: proto.Clone(in)})
+	if b.calls == nil {
+		b.calls = map[string][]Call{}
+	}
+	b.calls[id] = append(b.calls[id], Call{Method: vschema.FullMethod(md), Msg: proto.Clone(in)})
 	b.mu.Unlock()
 	out := vschema.NewMsg(md.Output())
 	if fd := md.Output().Fields().ByName("method"); fd != nil && fd.Kind() == protoreflect.StringKind {
@@ -353,12 +367,15 @@ func (b *Built) Do(verb, path, query string, hdr http.Header) Outcome {
 	for k, v := range hdr {
 		req.Header[k] = v
 	}
+	// the request id travels as a custom header (= incoming metadata) so
+	// that recorded handler calls can be attributed under concurrency
+	id := strconv.FormatInt(atomic.AddInt64(&reqSeq, 1), 10)
+	req.Header["X-Vf-Req"] = []string{id}
 	req = req.WithContext(context.Background())
 	rec := httptest.NewRecorder()
-	b.take()
 	var o Outcome
 	o.Panic = mon.Catch(func() { b.Mux.ServeHTTP(rec, req) })
-	calls := b.take()
+	calls := b.take(id)
 	o.Status = rec.Code
 	o.NCalls = len(calls)
 	o.Body = rec.Body.String()
